@@ -3,6 +3,7 @@ import LP.Props.C13Status
 import LP.Props.C13IntersectNF
 import LP.Props.C13PointInt
 import LP.Props.C13Hull
+import LP.Props.C13StatusIff
 import LP.Props.C13Obs
 import LP.Props.GenTables
 import LP.Props.C13
@@ -42,3 +43,13 @@ import LP.Props.C13Int
 #print axioms LP.FSet.cwi_bounds
 #print axioms LP.FSet.C13_isPointInt_sound
 #print axioms LP.FSet.C13_toInterval
+#print axioms LP.FSet.helly1d
+#print axioms LP.FSet.witness_low
+#print axioms LP.FSet.witness_high
+#print axioms LP.FSet.intersectLoop_not_all1
+#print axioms LP.FSet.cwi_mirror
+#print axioms LP.FSet.intersectLoop_flags_swap
+#print axioms LP.FSet.intersectLoop_not_all2
+#print axioms LP.FSet.C13_status_s1_iff
+#print axioms LP.FSet.C13_status_s2_iff
+#print axioms LP.FSet.C13_status_new_or_empty
